@@ -165,14 +165,46 @@ const (
 	UEStructField // type w struct {\n f Mock \n}  — the field line is a site
 	UEPkgVarTyped // var g Mock                    — site
 	UEPkgVarLit   // var g = Mock{}                — site
+	UEMethNamedHelper // func (q *Q) Helper(...) {…}  — a method that merely shares the @testonly function's name
+	UEFuncNamedReset  // func Reset(...) {…}          — a function that shares a @testonly method's name
+	UEMethQReset      // func (q *Q) Reset(...) {…}   — same method name, other receiver type
 	nUseEncl
 )
 
 var UseEnclNames = []string{"plain-func", "testonly-func", "testonly-method", "method-Q", "pkgvar-closure",
-	"func-param-Mock", "func-result-Mock", "struct-field-Mock", "pkgvar-typed-Mock", "pkgvar-lit-Mock"}
+	"func-param-Mock", "func-result-Mock", "struct-field-Mock", "pkgvar-typed-Mock", "pkgvar-lit-Mock",
+	"method-named-Helper", "func-named-Reset", "method-Q-named-Reset"}
 
 func (e UseEncl) String() string { return UseEnclNames[e] }
-func (e UseEncl) hasBody() bool  { return e <= UEPkgVar }
+func (e UseEncl) hasBody() bool  { return e <= UEPkgVar || e >= UEMethNamedHelper }
+func (e UseEncl) HasBody() bool  { return e.hasBody() }
+
+// FixedName is non-empty for enclosers that can occur once per package.
+func (e UseEncl) FixedName() string {
+	switch e {
+	case UEMethNamedHelper:
+		return "Q.Helper"
+	case UEFuncNamedReset:
+		return "Reset"
+	case UEMethQReset:
+		return "Q.Reset"
+	}
+	return ""
+}
+
+// ValidUseHistory rejects histories that would declare a fixed name twice.
+func ValidUseHistory(h []UseBlock) bool {
+	seen := map[string]bool{}
+	for _, b := range h {
+		if n := b.Encl.FixedName(); n != "" {
+			if seen[n] {
+				return false
+			}
+			seen[n] = true
+		}
+	}
+	return true
+}
 func (e UseEncl) exemptTONL() bool {
 	return e == UETestOnlyFunc || e == UETestOnlyMeth
 }
@@ -388,6 +420,12 @@ func RenderUse(s *UseSpec) *UseRendered {
 			w.addf("func (q *Q) tm%d%s {", bi, params)
 		case UEMethQ:
 			w.addf("func (q *Q) m%d%s {", bi, params)
+		case UEMethNamedHelper:
+			w.addf("func (q *Q) Helper%s {", params)
+		case UEFuncNamedReset:
+			w.addf("func Reset%s {", params)
+		case UEMethQReset:
+			w.addf("func (q *Q) Reset%s {", params)
 		case UEPkgVar:
 			w.addf("var _ = func%s int {", params)
 		case UEParamMock:
